@@ -21,6 +21,22 @@ ASSUMPTIONS = ["TRS._recompile (documented as unsupported) is not part of the op
 
 PROBE_TEXTS = ['T154N-R97W Sec 14: NE/4, Lots 1 - 3', 'T154-R97 Sec 14: NE/4', 'NE/4 of Sec 5, T2N-R3W\nW/2 of Sec 9, T2N-R3W',
                'T154N-R97W Sec 101: NE/4', 'nothing here', 'Township 1 North, Range 2 West, Sec 1: Lot 1 (40.0)']
+# texts on which each optional setting changes the result: a setting used by an earlier operation must not leak into
+# a later one that does not use it (and the other way round)
+SENSITIVE_TEXTS = ['TIS4N-R97W Sec 14: NE/4, Sec 15: W/2', 'Township lS4 North, Range 97 West\nSection 22: ALL',
+                   'T154N-R97W Sec 14: NE, N2', 'T154N-R97W Sec 14 NE/4', 'T154N-R97W Sec 14: N/2 of Lot 1',
+                   'T154N-R97W Sec 14: NE/4, T155N-R97W NW/4 of Sec 1', 'T154N-R97W That part of Sec 14 lying north of the river',
+                   'T154N-R97W Sec 14: N/2 NE/4 NW/4', 'T154-R97 Sec 14: NE/4']
+SETTING_POOL = ['parse_qq', 'clean_qq', 'ocr_scrub', 'segment', 'sec_within', 'sec_colon_required', 'sec_colon_cautious',
+                'suppress_lot_divs', 'break_halves', 'qq_depth.1', 'qq_depth_min.1', 'qq_depth_max.2', 's', 'e', 'TRS_desc', 'copy_all']
+
+
+def rand_settings(r, p_none=2):
+    if r.chance(p_none, 5):
+        return None
+    return ','.join(dict.fromkeys(r.choice(SETTING_POOL) for _ in range(r.range(1, 3))))
+
+
 TRS_STRS = ['154n97w14', 'XXXzXXXzXX', '___z___z__', '154n97w', '1n2w01', 'T154N-R97W', '', '154N97W14', '2n3w05', '154n97w101']
 
 
@@ -43,10 +59,11 @@ def rand_noise(r, next_id):
         elif k in (5, 6, 7):
             i = next_id[0]
             next_id[0] += 1
-            ops.append(('desc', i, r.choice(PROBE_TEXTS + [descs.structured(r, 2, 2)[0]]), None,
-                        r.choice([None, 'parse_qq', 's,e', 'segment', 'clean_qq,parse_qq']), None, None, None))
+            ops.append(('desc', i, r.choice(PROBE_TEXTS + SENSITIVE_TEXTS + [descs.structured(r, 2, 2)[0]]), None,
+                        r.choice([None, 'parse_qq', 's,e', 'segment', 'clean_qq,parse_qq', rand_settings(r), rand_settings(r)]), None, None, None))
             if r.chance(1, 3):
-                ops.append(('desc.parse', i, r.chance(1, 2), r.choice([{}, {'default_ns': 's'}, {'parse_qq': True}])))
+                ops.append(('desc.parse', i, r.chance(1, 2), r.choice([{}, {'default_ns': 's'}, {'parse_qq': True}, {'ocr_scrub': True},
+                                                                        {'clean_qq': True, 'parse_qq': True}, {'segment': True}])))
             if r.chance(1, 4):
                 ops.append(('desc.sort', i, r.choice(['i', 's,t.ns', 'i.rev']), False))
         elif k in (8, 9):
@@ -54,7 +71,7 @@ def rand_noise(r, next_id):
             next_id[0] += 1
             ops.append(('tract', i, r.choice(['NE/4', 'Lots 1 - 3', 'N2 NE']), r.choice(TRS_STRS), r.choice([None, 'parse_qq', 'clean_qq']), r.choice([None, True])))
         elif k == 10:
-            ops.append(('find_twprge', r.choice(PROBE_TEXTS), None, None, r.chance(1, 2), False))
+            ops.append(('find_twprge', r.choice(PROBE_TEXTS + SENSITIVE_TEXTS[:2]), None, None, r.chance(1, 2), r.chance(1, 2)))
         else:
             ops.append(('mc', 'n', 'w'))
             mc_changed = False
@@ -71,14 +88,15 @@ def rand_probe(r, next_id):
     i = next_id[0]
     next_id[0] += 1
     if k in (0, 1):
-        return [('desc', i, r.choice(PROBE_TEXTS), None, r.choice([None, 'parse_qq', 'segment', 'sec_colon_cautious']), None, None, None)]
+        return [('desc', i, r.choice(PROBE_TEXTS + SENSITIVE_TEXTS), None,
+                 r.choice([None, 'parse_qq', 'segment', 'sec_colon_cautious', rand_settings(r)]), None, None, None)]
     if k == 2:
         return [('desc', i, r.choice(PROBE_TEXTS), None, None, None, None, None), ('desc.sort', i, r.choice(['i', 'i.rev', 's.rev,i']), False)]
     if k == 3:
         return [('tract', i, r.choice(['NE/4', 'Lots 1 - 3']), r.choice(TRS_STRS), r.choice([None, 'parse_qq']), None)]
     if k == 4:
         return [('warm', r.choice(TRS_STRS)), ('todict', r.choice(TRS_STRS))]
-    return [('find_twprge', r.choice(PROBE_TEXTS), r.choice([None, 's']), None, r.chance(1, 2), False)]
+    return [('find_twprge', r.choice(PROBE_TEXTS + SENSITIVE_TEXTS[:2]), r.choice([None, 's']), None, r.chance(1, 2), False)]
 
 
 def fresh(probe):
